@@ -537,7 +537,11 @@ def gen_scenario(rng, **kw):
         elif rng.random() < 0.25:
             make_fault(rng, runs[-1])
         # after a crash the usual thing is to go on appending
-        c = gen_cfg(rng, appending=rng.random() < (0.8 if abrupt_before else 0.5))
+        killed_before = bool(runs[-1].get('kill'))
+        c = gen_cfg(rng, appending=rng.random() < (0.5 if killed_before else 0.8 if abrupt_before else 0.5))
+        if killed_before and rng.random() < 0.8:
+            c['cdx'] = True
+            runs[-1]['cfg']['cdx'] = True
         # mostly the same naming scheme, so that the later life meets the earlier one's files
         if rng.random() < 0.85:
             c['compress'] = prev['compress']
@@ -900,7 +904,7 @@ def run_real_life(directory, run, seed, die=False, side=None):
         except OSError as e:
             if journal_present and 'incomplete' in str(e):
                 # the journal of an append that was cut short is there: the recorder refuses to start (C06)
-                return {'cfg': cfg, 'before': before, 'after': dict(before), 'created': created, 'meta': meta,
+                return {'cfg': cfg, 'before': before, 'after': read_dir(directory), 'created': created, 'meta': meta,
                         'model_ops': model_ops, 'software': software, 'raised': None, 'refused': True,
                         'snap_c05': [], 'snap_c07': []}
             raise
@@ -1570,6 +1574,19 @@ def run_scenario(scn, seed='s'):
                 break
             if obs.get('refused'):
                 out.tags.append('life:refused-journal-present')
+                # a start that is refused protects the archive it found: nothing on disk may have changed, in particular
+                # the index of that archive must still hold its lines
+                changed = sorted(n for n in set(obs['before']) | set(obs['after']) if obs['before'].get(n) != obs['after'].get(n))
+                cdxname = PREFIX + '.cdx'
+                if cdxname in changed:
+                    lost = [rid for rid in indexed if rid not in obs['after'].get(cdxname, b'')]
+                    out.c07.append(('cdx-lost-by-refused-start', '__init__',
+                                    'life %d was refused (journal of an unfinished append present) but %s changed from %d to %d bytes: '
+                                    '%d response records of the protected archive lost their index line'
+                                    % (li, cdxname, len(obs['before'].get(cdxname, b'')), len(obs['after'].get(cdxname, b'')), len(lost))))
+                if [n for n in changed if n != cdxname]:
+                    out.c05.append(('refused-start-changed-files', '__init__',
+                                    'life %d was refused but changed %s' % (li, [n for n in changed if n != cdxname])))
                 break
             by_file, problems = parse_life(obs)
             fails, all_ids = oracle_c05(obs, by_file, problems, all_ids)
